@@ -29,7 +29,8 @@ RULE = ("cases: (1) exhaustive small scope: every leaf reader (DataFrameReader, 
         "join, empty column request; (4) writers: TabularDataWriter.from_suffix x {.csv,.tab,.parquet} x buffer_size "
         "0..4 (thorough 0..6) x buffer_type {DataFrame,Dicts,Records} x all append-size sequences over {0,1,2,3} of "
         "length <= 3 (thorough <= 4), random longer sequences, BufferedWriter constructed directly with size 1..3; "
-        "emitted batches are observed as Parquet row groups. distinct = distinct (entry, reader tree / writer "
+        "emitted batches are observed as Parquet row groups, and (trace cases, CSV) the number of rows that reached "
+        "the file is read back after every append_data. distinct = distinct (entry, reader tree / writer "
         "configuration, tables, chunk size, request); non-trivial = >= 2 rows and (>= 2 chunks or a composite "
         "reader or >= 2 appends)")
 ASSUMPTIONS = [
@@ -235,7 +236,7 @@ def encode(c):
                 + _enc_cols(ids, c["cols"]))
     if fn == "names":
         return "c13.names " + _enc_reader(ids, c["reader"])
-    if fn in ("writer", "buffered"):
+    if fn in ("writer", "buffered", "trace"):
         rows = [[ids.val(v) for v in r] for r in _rows(c["tab"])]
         ds, pos = [], 0
         for s in c["sizes"]:
@@ -267,6 +268,8 @@ def decode(c, t):
             pending = t.nat()
             return [batches, pending]
         return t.result(f)
+    if fn == "trace":
+        return t.result(lambda: t.lst(t.int))
     if fn == "buffered":
         def g():
             batches = t.lst(lambda: t.lst(lambda: t.lst(t.z)))
@@ -426,6 +429,24 @@ def _run_writer(c):
     return {"rows": rows, "batches": batches, "pending": pending, "index": fr[0], "names": fr[1]}
 
 
+def _run_trace(c):
+    """rows in the (CSV) file after every append_data and after finalize, through the associated reader"""
+    from mokapot.tabular_data import TabularDataWriter, TableType
+    tab = c["tab"]
+    df = _df(tab)
+    p = _fresh(c["suffix"])
+    w = TabularDataWriter.from_suffix(p, list(tab["names"]), buffer_size=c["b"], buffer_type=TableType[c["kind"]])
+    out = []
+    with w:
+        pos = 0
+        for s in c["sizes"]:
+            w.append_data(_append_arg(c["kind"], df.iloc[pos:pos + s]))
+            pos += s
+            out.append(len(w.get_associated_reader().read()))
+    out.append(len(w.get_associated_reader().read()))
+    return out
+
+
 def _kind_fix(r):
     if r[0] == "err" and r[1] == "TypeCheckError":
         return ("err", "TypeError")
@@ -440,6 +461,8 @@ def impl(c):
         return _kind_fix(call_impl(_run_chunks, c))
     if fn == "names":
         return _kind_fix(call_impl(_run_names, c))
+    if fn == "trace":
+        return _kind_fix(call_impl(_run_trace, c))
     return _kind_fix(call_impl(_run_writer, c))
 
 
@@ -589,6 +612,14 @@ def oracle(c, i):
     i = lib.jsonable(i)
     fn = c["fn"]
     ids = _ids(c)
+    if fn == "trace":
+        if c["kind"] == "Records" and any(s != 1 for s in c["sizes"]):
+            return None
+        if i[0] != "ok":
+            return f"writing raised {i[1]}"
+        if i[1][-1] != sum(c["sizes"]):
+            return f"the finalised file holds {i[1][-1]} rows, {sum(c['sizes'])} were appended"
+        return None
     if fn in ("writer", "buffered"):
         if c["kind"] == "Records" and any(s != 1 for s in c["sizes"]):
             return None
@@ -658,7 +689,7 @@ def finding_key(c, m, i):
 
 
 def nontrivial(c):
-    if c["fn"] in ("writer", "buffered"):
+    if c["fn"] in ("writer", "buffered", "trace"):
         return sum(c["sizes"]) >= 2 and len(c["sizes"]) >= 2
     if c["fn"] == "names":
         return c["reader"]["k"] in ("mapped", "joined", "computed")
@@ -1060,6 +1091,21 @@ def gen_writers(ctx):
             b = 2
         suffix = rng.choice([".tab", ".csv", ".parquet", ".parquet", ".peptides"])
         cases.append(_wcase("writer", suffix, b, kind, tb, sizes, ["random"]))
+    # rows that reached the file after each append (the invariant of the flush loop), CSV only
+    for b in (2, 3, 4):
+        for kind in KINDS:
+            for sizes in ((), (1,), (2,), (1, 1), (1, 1, 1, 1), (b,), (b, b), (2 * b,), (b - 1, 1, 0, b), (3, 0, 2, 4),
+                          (1, 1, 1, 1, 1, 1, 1)):
+                if kind == "Records":
+                    sizes = (1,) * len(sizes)
+                cases.append(_wcase("trace", ".tab", b, kind, plain_table(["a", "b", "s"], 12), sizes, ["trace"]))
+    for t in range(60 if ctx.thorough else 15):
+        kind = rng.choice(KINDS)
+        L = rng.randint(1, 8)
+        sizes = [1] * L if kind == "Records" else [rng.choice([0, 1, 2, 3, 4, 6]) for _ in range(L)]
+        b = rng.choice([2, 2, 3, 4, 5, 6])
+        cases.append(_wcase("trace", rng.choice([".tab", ".csv"]), b, kind,
+                            plain_table(["a", "b", "s"], max(1, sum(sizes))), sizes, ["trace", "random"]))
     for suffix in suffixes:
         for b in (1, 2, 3):
             for kind in KINDS:
@@ -1083,7 +1129,7 @@ def _cut_rows(spec, n):
 
 
 def shrink(c):
-    if c["fn"] in ("writer", "buffered"):
+    if c["fn"] in ("writer", "buffered", "trace"):
         for k in range(len(c["sizes"])):
             yield dict(c, sizes=c["sizes"][:k] + c["sizes"][k + 1:])
         for k in range(len(c["sizes"])):
